@@ -8,6 +8,7 @@ verus! {
 //@include dtype.rs
 //@include dtype_optcast.rs
 //@include lemmas/window.rs
+//@include lemmas/weighted.rs
 
 pub type T = f64;   // plain family: T: Number, every element counts
 pub type U = ${U};
